@@ -69,20 +69,29 @@ def enum_filters(ctx, rr):
         loops = [f for f in P.own(u, ast.For)]
         rows = tables(ctx, u, stmts=loops[0].body, iters=1, keep=lambda n, c: n in ('append', 'is_crawled'))
         bad = []
+        import re as _re2
         for r in rows:
             apps = r.calls('append')
             cr = atom_val(r, '.is_crawled()')
+            sets = {e.name: (e.args[0] if e.args else '') for e in r.events if e.kind == 'set' and e.name}
+
+            def resolved(txt, depth=3):
+                for _ in range(depth):
+                    txt = _re2.sub(r'[A-Za-z_][A-Za-z_0-9]*(#\d+)?', lambda m_: sets.get(m_.group(0).split('#')[0], m_.group(0)) if m_.group(0).split('#')[0] in sets else m_.group(0), txt)
+                return txt
             if only:
                 if bool(apps) != bool(cr):
                     bad.append((r, 'page %s although crawled=%s' % ('listed' if apps else 'dropped', cr)))
                 for a in apps:
-                    if "'crawled': True" not in a.args[0]:
+                    t_ = resolved(a.args[0])
+                    if "'crawled': True" not in t_ and not ("'crawled': " in t_ and '.is_crawled()' in t_.split("'crawled': ", 1)[1]):
                         bad.append((r, 'crawled-only listing reports %s' % a.args[0]))
             else:
                 if len(apps) != 1:
                     bad.append((r, 'every page of the walk must be listed once'))
                 for a in apps:
-                    if '.is_crawled()' not in a.args[0] or "'lru'" not in a.args[0]:
+                    t_ = resolved(a.args[0])
+                    if '.is_crawled()' not in t_ or "'lru'" not in t_:
                         bad.append((r, 'listing entry %s does not carry the LRU and the crawled mark of the node' % a.args[0]))
         rr.ob(ctx.where(u, loops[0]), '%s lists %s with their own crawled mark' % (qual, 'crawled pages only' if only else 'every page'), ok=not bad)
         for r, msg in bad:
